@@ -477,6 +477,10 @@ def verify_unit(index: RepoIndex, contract: Contract, only=None) -> list[UnitRes
                 fr = in_contract[-1]
                 res.status, res.detail = "contract-error", (f"contract does not bind: {type(e).__name__}: {e} in "
                                                             f"{fr.filename.split('/contracts/')[-1]}:{fr.lineno} ({fr.name})")
+            elif type(e).__name__ == "Z3Exception":
+                # the executor could not represent a value of this version of the function as a term (a Python value reached a place where the
+                # encoding needs a z3 expression): this code is outside the subset the executor encodes - undecided, with the traceback kept
+                res.status, res.detail = "out-of-subset", f"value not representable by the executor's encoding ({e}); {traceback.format_exc()[-600:]}"
             else:        # engine fault
                 res.status, res.detail = "engine-error", f"{type(e).__name__}: {e}\n{traceback.format_exc()}"
         res.obligations = _dedupe(ctx.obligations)
